@@ -18,6 +18,10 @@ type OrderSpec struct {
 
 var curOrders = OrderSpec{Chars: "sorted", Words: "sorted", Visit: "native"}
 
+// hookCalls counts hook invocations, so that checks whose oracle depends on an owned order can
+// tell "the hook was not reached" (inconclusive) from a wrong result.
+var hookCalls struct{ words int }
+
 // probes on what the visit order exercised
 var visitStats struct {
 	constructions   int
@@ -60,6 +64,7 @@ func installOrderHooks() {
 		return out
 	}
 	spg.VerifHooks.OrderWords = func(w []string) []string {
+		hookCalls.words++
 		if curOrders.Words == "native" {
 			return w
 		}
